@@ -12,15 +12,24 @@ from fractions import Fraction
 
 from harness.gen_pcode import Gen, gen_schedule
 from harness.interp import Harness, frac
+from vp.core import Infra
 
 FACTOR = {"s": 1, "min": 60, "h": 3600}
+# base units of the volume / column-volume accumulators: (factor to the accumulator tag's unit, kind)
+VOL_FACTOR = {"L": Fraction(1), "mL": Fraction(1, 1000), "CV": Fraction(1)}
+ALL_FACTOR = {**{u: Fraction(f) for u, f in FACTOR.items()}, **VOL_FACTOR}
 THR = {
     "s": ["0.125", "0.25", "0.5", "0.75", "1", "1.5", "2", "3"],
     "min": ["0.0078125", "0.015625", "0.03125"],            # 0.47 s, 0.94 s, 1.875 s
     "h": ["0.000244140625", "0.00048828125"],               # 0.88 s, 1.76 s
+    "L": ["0.25", "0.5", "0.75", "1", "1.5", "2"],
+    "mL": ["250", "500", "750", "1000", "1500"],
+    "CV": ["0.125", "0.25", "0.5", "0.75", "1"],
 }
 WAITS_ANY = ["0.0625", "0.125", "0.25", "0.375", "0.5", "0.75", "1", "1.25", "1.5"]
-WAITS_OFF_GRID = ["0.0625", "0.125", "0.25", "0.375", "0.625", "0.75", "0.875", "1.25"]   # d - 0.1 is no multiple of 0.1
+# durations at 0.1 s ticks: on the tick grid (the common case; the comparison is decided by float rounding,
+# which the harness reproduces exactly, see HarnessTenths) and off it
+WAITS_TENTHS = ["0.0625", "0.1", "0.2", "0.3", "0.5", "0.7", "1", "1.2", "1.5", "0.25", "0.375", "0.75", "1.25"]
 
 
 # ----------------------------------------------------------------------------------------
@@ -31,12 +40,24 @@ class GenC03(Gen):
     Base changes and Waits."""
 
     def __init__(self, rng: random.Random, p_thr: float = 0.4, waits: list[str] | None = None,
-                 p_wait: float = 0.2, **kw):
+                 p_wait: float = 0.2, bases: list[str] | None = None, **kw):
         super().__init__(rng, **kw)
         self.p_thr = p_thr
         self.p_wait = p_wait
         self.base = "min"
         self.waits = waits or WAITS_ANY
+        self.bases = bases or ["s", "s", "s", "min", "h"]
+
+    def instruction(self, depth: int, budget: int, in_block: bool, in_macro: bool) -> int:
+        n0 = len(self.lines)
+        used = super().instruction(depth, budget, in_block, in_macro)
+        # Base changes of the parent generator choose among s/min/h: re-draw from this generator's units
+        for k in range(n0, len(self.lines)):
+            if self.lines[k].strip().startswith("Base: ") and k == n0:
+                unit = self.rng.choice(self.bases)
+                self.lines[k] = self.lines[k][:len(self.lines[k]) - len(self.lines[k].lstrip())] + f"Base: {unit}"
+                self.base = unit
+        return used
 
     def emit(self, depth: int, text: str, thr: bool = True):
         r = self.rng
@@ -60,15 +81,17 @@ class GenC03(Gen):
 
     def program(self) -> str:
         r = self.rng
-        if r.random() < 0.7:
-            self.emit(0, f"Base: {r.choice(['s', 's', 's', 'min', 'h'])}", thr=False)
+        if r.random() < 0.7 or any(b in VOL_FACTOR for b in self.bases):
+            self.emit(0, f"Base: {r.choice(self.bases)}", thr=False)
             self.count("base")
         return super().program()
 
 
 def gen_method(rng: random.Random, features: set[str], max_lines: int = 12, max_depth: int = 2,
-               waits: list[str] | None = None, p_thr: float = 0.4) -> tuple[str, dict[str, int]]:
-    g = GenC03(rng, p_thr=p_thr, waits=waits, features=features, max_lines=max_lines, max_depth=max_depth)
+               waits: list[str] | None = None, p_thr: float = 0.4, bases: list[str] | None = None
+               ) -> tuple[str, dict[str, int]]:
+    g = GenC03(rng, p_thr=p_thr, waits=waits, bases=bases, features=features, max_lines=max_lines,
+               max_depth=max_depth)
     return g.program(), g.stats
 
 
@@ -102,17 +125,85 @@ def gen_clock_schedule(rng: random.Random, n_ticks: int, denom: int = 8, with_re
 
 
 # ----------------------------------------------------------------------------------------
-# interpreter-level harness with 0.1 s ticks (tick times are floats k/10 on the real side, k/10 exactly
-# in the model; Wait durations are chosen so that no comparison is within 0.02 s of equality)
+# interpreter-level harness with the default 0.1 s tick interval, faithful to the floats the code sees:
+#  * tick times: the real side gets the float `EPOCH + k/10.0`; the model gets the exact rational of that float;
+#  * `Wait: d`: the code computes `end = (start + float(d)) - 0.1` in doubles and compares `tick_time < end`.  For
+#    tick times in one binade `end - start` is the same double for every start (verified below, else the tie is
+#    declared broken), so the model's `Wait` parameter is that net duration + 1/10: the model's exact comparison
+#    `tickTime < waitStart + d - 1/10` is then the code's float comparison, also for durations on the tick grid;
+#  * volume / CV base units: accumulator tags registered for L, mL, CV show the same numbers as the two clocks
+#    (the model has one clock pair; which pair the interpreter reads is decided by the Base unit).
+
+class BrokenTie(Infra):
+    """The harness can no longer observe / reproduce what it needs (renamed private attribute, float behaviour):
+    an infrastructure failure (exit 2), never a VIOLATION."""
+
+
+def float_net_duration(arg: str) -> Fraction | None:
+    """`duration_end_time - wait_start_time` as the code computes it (doubles), as an exact rational; checked to be
+    independent of the start time over the tick times this harness uses."""
+    from openpectus.lang.exec.regex import REGEX_DURATION, get_duration_end
+    from harness.interp import EPOCH
+    m = re.match(REGEX_DURATION, arg)
+    if m is None:
+        return None
+    time = float(m.group("number"))
+    unit = m.group("number_unit")
+    nets = set()
+    for k in (0, 1, 2, 3, 7, 10, 33, 64, 99, 100, 101, 250, 499, 777, 1000, 2000):
+        w = EPOCH + k / 10.0
+        end = get_duration_end(w, time, unit)
+        end -= 0.1
+        nets.add(Fraction(end) - Fraction(w))
+    if len(nets) != 1:
+        raise BrokenTie(f"float net duration of Wait: {arg} depends on the start time: {sorted(nets)}")
+    return nets.pop()
+
 
 class HarnessTenths(Harness):
+    VOL_TAGS = {"L": ("C03 AccVol", "C03 BlkVol", "L"), "mL": ("C03 AccVol", "C03 BlkVol", "L"),
+                "CV": ("C03 AccCV", "C03 BlkCV", "CV")}
+
+    def __init__(self, pcode: str):
+        super().__init__(pcode)
+        from openpectus.lang.exec.tags import Tag
+        bup = self.ctx.base_unit_provider
+        for unit, (a, b, tag_unit) in self.VOL_TAGS.items():
+            for name in (a, b):
+                if not self.tags.has(name):
+                    self.tags.add(Tag(name, value=0.0, unit=tag_unit))
+            bup.set(unit, a, b)
+
     def _elapsed(self, dt_tenths: int) -> float:
         self._t += dt_tenths
         return self._t / 10.0
 
+    def tick(self, dt_tenths: int, scope: Fraction, block: Fraction, tagvals: list[int]) -> str:
+        from harness.interp import EPOCH
+        t = EPOCH + (self._t + dt_tenths) / 10.0
+        for a, b, _ in self.VOL_TAGS.values():
+            self.tags[a].set_value(float(scope), t)
+            self.tags[b].set_value(float(block), t)
+        return super().tick(dt_tenths, scope, block, tagvals)
+
     def op_line_tick(self, dt_tenths: int, scope: Fraction, block: Fraction, tagvals: list[int]) -> str:
-        return "\t".join(["tick", frac(Fraction(self._t + dt_tenths, 10)), frac(scope), frac(block),
+        from harness.interp import EPOCH
+        t = EPOCH + (self._t + dt_tenths) / 10.0       # the float the real side is ticked with
+        return "\t".join(["tick", frac(Fraction(t) - Fraction(EPOCH)), frac(scope), frac(block),
                           ",".join(str(v) for v in tagvals)])
+
+    def _kind(self, n, p) -> str:
+        from harness.interp import enc
+        if isinstance(n, p.InterpreterCommandNode) and n.instruction_name == "Wait":
+            net = float_net_duration(n.arguments)
+            if net is None:
+                return "failing wait"
+            d = net + Fraction(1, 10)
+            return f"wait {d.numerator}/{d.denominator}"
+        if isinstance(n, p.InterpreterCommandNode) and n.instruction_name == "Base" and n.arguments in VOL_FACTOR:
+            f = VOL_FACTOR[n.arguments]
+            return f"base {f.numerator}/{f.denominator} {enc(n.arguments)}"
+        return super()._kind(n, p)
 
 
 def run_case_tenths(case: dict) -> tuple[list[str], list[str]]:
@@ -218,27 +309,48 @@ def gen_rerun_method(rng: random.Random) -> tuple[str, dict[str, int]]:
     return "\n".join(lines), {kind: 1, "wait": sum(1 for x in lines if "Wait:" in x)}
 
 
+def gen_volume_method(rng: random.Random) -> tuple[str, dict[str, int]]:
+    """Thresholds in the volume / column-volume base units (L, mL, CV), in and out of blocks, with Base changes
+    between volume, CV and time units."""
+    g = GenC03(rng, p_thr=0.6, p_wait=0.05, bases=["L", "mL", "CV", "L", "CV", "s"],
+               features={"mark", "block", "watch", "cmd", "thr", "base", "blank", "wait"},
+               max_lines=rng.choice([7, 10, 12]), max_depth=2)
+    pcode = g.program()
+    g.stats["volume_method"] = 1
+    return pcode, g.stats
+
+
 def gen_oracle_case(rng: random.Random, default_interval: bool) -> dict:
     features = {"mark", "block", "watch", "wait", "cmd", "thr", "base", "blank"}
     if rng.random() < 0.3:
         features.add("alarm")
     if rng.random() < 0.3:
         features.add("macro")
-    rerun = default_interval and rng.random() < 0.3
+    x = rng.random()
+    rerun = default_interval and x < 0.3
+    volume = (not rerun) and x < 0.55
     if rerun:
         pcode, stats = gen_rerun_method(rng)
+    elif volume:
+        pcode, stats = gen_volume_method(rng)
     else:
         pcode, stats = gen_method(rng, features, max_lines=rng.choice([6, 9, 12]), max_depth=2, p_thr=0.45)
     n_ticks = rng.choice([60, 90, 120]) if not rerun else rng.choice([90, 120])
     plan: list[list] = []
     paused_until = -1
     mode = None
+    total = Fraction(0)
+    flow = Fraction(rng.choice([1, 1, 2]), 8)         # litres per tick
     for t in range(n_ticks):
         acts: list = []
         if rerun and t == 0:
             acts.append(["tag", "T0", 1])
         elif rng.random() < 0.25 and not (rerun and rng.random() < 0.8):
             acts.append(["tag", f"T{rng.randrange(3)}", rng.randrange(4)])
+        if rng.random() < 0.05:
+            flow = Fraction(rng.choice([0, 1, 1, 2, 4]), 8)
+        total += flow
+        acts.append(["tag", "Totalizer", float(total)])
         if mode is None and rng.random() < 0.03 and t > 3:
             mode = rng.choice(["Pause", "Hold"])
             paused_until = t + rng.randrange(2, 12)
@@ -267,6 +379,20 @@ def _ancestors(nodes, n):
     return out
 
 
+TIME_UNITS = ("s", "min", "h")
+
+
+def _clock_tags(unit: str):
+    """The property's definition of the clock pair of a base unit: (outside a block, inside a block)."""
+    if unit in TIME_UNITS:
+        return "Scope Time", "Block Time"
+    if unit in ("L", "mL"):
+        return "Accumulated Volume", "Block Volume"
+    if unit == "CV":
+        return "Accumulated CV", "Block CV"
+    return None
+
+
 def _scope_sig(snap):
     return [(n["id"], n["started"], n["completed"], n["lock"], n["ended"], n["activated"], n["run_count"],
              n["interrupt_registered"]) for n in snap["nodes"] if n["cls"] in SCOPE_CLS]
@@ -276,13 +402,25 @@ def _base_sig(snap):
     return [(n["id"], n["started"], n["completed"]) for n in snap["nodes"] if n["name"] == "Base"]
 
 
-def _clock(snap) -> Fraction:
-    blk = snap["tags"].get("Block")
-    return dec(snap["tags"]["Block Time"] if blk not in (None, "") else snap["tags"]["Scope Time"])
+def _in_block(snap) -> bool:
+    return snap["tags"].get("Block") not in (None, "")
 
 
-def _factor(snap) -> int:
-    return FACTOR.get(str(snap["tags"].get("Base")), 60)
+def _clock(snap) -> Fraction | None:
+    """The clock the engine itself shows for the current Base unit and Block tag."""
+    tags = _clock_tags(str(snap["tags"].get("Base")))
+    if tags is None or tags[0] not in snap["tags"] or tags[1] not in snap["tags"]:
+        return None
+    return dec(snap["tags"][tags[1] if _in_block(snap) else tags[0]])
+
+
+def _factor(snap) -> Fraction | None:
+    return ALL_FACTOR.get(str(snap["tags"].get("Base")))
+
+
+def _reached(snap, T: Fraction) -> bool:
+    c, f = _clock(snap), _factor(snap)
+    return c is not None and f is not None and c >= T * f
 
 
 def _pred_done(snap, n_id) -> bool:
@@ -311,59 +449,172 @@ def _pred_done(snap, n_id) -> bool:
     return bool(pred["completed"]) and not pred["failed"]
 
 
-def _scope_event_counter(engine):
-    """A read-only listener on the engine's own event emitter: counts scope / block events, so that the
-    oracle knows in which ticks the scope or block stack (what the clock tags display) changed."""
-    from openpectus.lang.exec.events import EventListener
+# ---- the engine with a totalizer, a column volume and the accumulator tags
 
-    class Counter(EventListener):
-        def __init__(self):
-            super().__init__()
-            self.n = 0
+def make_uod_c03(exec_log: list):
+    from harness.engine_run import COND_TAGS, UOD_COMMANDS
+    from openpectus.lang.exec.tags import Tag
+    from openpectus.lang.exec.uod import UodBuilder
 
-        def on_block_start(self, block_info):
-            self.n += 1
+    def make_exec(name: str, iterations: int):
+        def exec_fn(cmd, **kvargs):
+            exec_log.append(("exec", name))
+            cmd._verif_iter = getattr(cmd, "_verif_iter", 0) + 1
+            if cmd._verif_iter >= iterations:
+                cmd.set_complete()
+        return exec_fn
 
-        def on_block_end(self, block_info, new_block_info):
-            self.n += 1
+    b = (UodBuilder().with_instrument("VerifUodC03").with_author("v", "v@example.org").with_filename(__file__)
+         .with_hardware_none().with_location("loc"))
+    for t in COND_TAGS:
+        b = b.with_tag(Tag(name=t, value=0))
+    b = b.with_tag(Tag(name="Totalizer", value=0.0, unit="L")).with_tag(Tag(name="ColVol", value=2.0, unit="L"))
+    b = b.with_accumulated_volume("Totalizer").with_accumulated_cv("ColVol", "Totalizer")
+    for name, it in UOD_COMMANDS.items():
+        b = b.with_command(name=name, exec_fn=make_exec(name, it),
+                           init_fn=(lambda n: (lambda cmd: exec_log.append(("init", n))))(name),
+                           finalize_fn=(lambda n: (lambda cmd: exec_log.append(("final", n))))(name))
+    b = b.with_command_overlap(["CmdB", "CmdC"])
+    return b.build()
 
-        def on_scope_start(self, scope_info):
-            self.n += 1
 
-        def on_scope_activate(self, scope_info):
-            self.n += 1
+def engine_run_c03(pcode: str, dt: float):
+    """harness.engine_run.EngineRun on a UOD that also has `Totalizer` [L], `ColVol` = 2 L and the accumulated /
+    block volume and CV tags (base units L, mL, CV)."""
+    import harness.engine_run as ER
 
-        def on_scope_end(self, scope_info):
-            self.n += 1
+    class Run(ER.EngineRun):
+        def __init__(self, pcode, dt):
+            orig = ER.make_uod
+            ER.make_uod = lambda log, overlap=True: make_uod_c03(log)
+            try:
+                super().__init__(pcode, dt=dt)
+            finally:
+                ER.make_uod = orig
 
-        def on_start(self, run_id):
-            self.n += 1
+    return Run(pcode, dt)
 
-    c = Counter()
-    engine._emitter.add_listener(c)
-    return c
+
+def _need(obj, attr: str):
+    if not hasattr(obj, attr):
+        raise BrokenTie(f"C03 oracle: {type(obj).__name__}.{attr} no longer exists — the oracle cannot see which "
+                        f"timer a clock tag displays (rename?); repair harness/c03.py")
+    return getattr(obj, attr)
+
+
+class _Probe:
+    """Read-only view of which scope / block timer the clock tags display, at tick boundaries and at every scope /
+    block event inside a tick (listener on the engine's own emitter, called after the tags)."""
+
+    def __init__(self, engine):
+        from openpectus.lang.exec.events import EventListener
+        self.e = engine
+        self.st = engine.tags["Scope Time"]
+        self.bt = engine.tags["Block Time"]
+        for o, a in ((self.st, "_timers"), (self.st, "_stack"), (self.bt, "_stack"), (engine, "_emitter"),
+                     (engine, "_runstate_started"), (engine, "_runstate_paused"), (engine, "_runstate_holding"),
+                     (engine, "_runstate_stopping")):
+            _need(o, a)
+        self.moments: list[dict] = []
+        self.n_events = 0
+        probe = self
+
+        class L(EventListener):
+            def _ev(self, *a):
+                probe.n_events += 1
+                probe.moments.append(probe.light())
+            on_block_start = on_scope_start = on_scope_activate = on_scope_end = on_start = \
+                lambda self, *a: self._ev()
+
+            def on_block_end(self, block_info, new_block_info):
+                self._ev()
+
+        _need(engine, "_emitter").add_listener(L())
+
+    def running(self) -> bool:
+        e = self.e
+        return bool(e._runstate_started and not e._runstate_paused and not e._runstate_holding
+                    and not e._runstate_stopping)
+
+    def light(self) -> dict:
+        items = list(_need(self.bt, "_stack"))
+        for it in items:
+            _need(it, "value")
+        return {"scope": list(_need(self.st, "_stack")), "block": [id(it) for it in items],
+                "block_tag": self.e.tags["Block"].get_value(), "base": str(self.e.tags["Base"].get_value())}
+
+    def full(self) -> dict:
+        m = self.light()
+        m["scope_timers"] = {k: dec(v) for k, v in _need(self.st, "_timers").items()}
+        m["block_values"] = {id(it): dec(it.value) for it in _need(self.bt, "_stack")}
+        m["block_names"] = {id(it): _need(it, "name") for it in _need(self.bt, "_stack")}
+        return m
+
+
+def _allowed_clocks(n, nodes, prev, cur, pre: dict, moments: list[dict], lexical: bool = True):
+    """The clock values the property allows for a start of `n` in a tick in which the scope / block stacks, the
+    Block tag or the Base unit changed: at every moment of the tick (tick start, after each scope / block event,
+    tick end) the clock of that moment's Base unit — the block clock if the Block tag is set at that moment, else
+    the scope clock — restricted by where the line stands: a line inside a Block is only ever evaluated while a
+    block is active, and a line in a Watch / Alarm body only on that scope's timer or a younger one.
+    Returns [(clock value, factor of the unit)], a description."""
+    anc = _ancestors(nodes, n) if lexical else []
+    blk = next((a for a in anc if a["cls"] == "BlockNode"), None)
+    scope_anc = next((a for a in anc if a["cls"] in ("WatchNode", "AlarmNode")), None)
+    pn = {x["id"]: x for x in prev["nodes"]}
+    blk_fresh = blk is not None and blk["lock"] and not pn[blk["id"]]["lock"]     # its block started in this tick
+    units = {m["base"] for m in moments}
+    for x in cur["nodes"]:
+        if x["name"] == "Base" and (x["started"], x["completed"]) != (pn[x["id"]]["started"], pn[x["id"]]["completed"]):
+            units.add(str(x["arg"]).strip())
+    out, why = [], []
+    for m in moments:
+        inb = m["block_tag"] not in (None, "")
+        if blk is not None and not inb:
+            continue
+        for u in units:
+            f = ALL_FACTOR.get(u)
+            tags = _clock_tags(u)
+            if f is None or tags is None:
+                continue
+            if u in TIME_UNITS:
+                if inb:
+                    if not m["block"]:
+                        v = Fraction(0)
+                    else:
+                        v = pre["block_values"].get(m["block"][-1], Fraction(0))     # a block started in this tick: 0
+                else:
+                    st = m["scope"]
+                    if scope_anc is not None and scope_anc["id"] not in st:
+                        continue
+                    v = pre["scope_timers"].get(st[-1], Fraction(0)) if st else Fraction(0)
+            else:
+                if tags[0] not in prev["tags"]:
+                    continue
+                # accumulator tags are refreshed once per tick: the value of the previous tick is what is read;
+                # for the first line of a block that started in this tick the block's own accumulator is 0
+                v = Fraction(0) if (inb and blk_fresh) else dec(prev["tags"][tags[1] if inb else tags[0]])
+                if inb and not blk_fresh and tags[1] in cur["tags"]:
+                    # a block ended in this tick: the enclosing block's accumulator (shown from the next tick on)
+                    out.append((dec(cur["tags"][tags[1]]), f))
+            out.append((v, f))
+            why.append(f"{float(v)} [{u}{', in block' if inb else ''}]")
+    return out, sorted(set(why)), blk_fresh
 
 
 def oracle_case(case: dict, stats: dict | None = None):
     """C03 over the real engine. Returns a vp.core.Failure or None.  `stats` counts what was judged."""
-    from harness.engine_run import EngineRun
     from vp.core import Failure
     dt = float(case["dt"])
     default_interval = case["dt"] == "0.1"
-    run = EngineRun(case["pcode"], dt=dt)
+    run = engine_run_c03(case["pcode"], dt)
     brief = {"pcode": case["pcode"], "dt": case["dt"], "ticks": case["ticks"], "plan": case["plan"]}
     try:
-        e = run.engine
-        events = _scope_event_counter(e)
-        st_tag = e.tags["Scope Time"]
-        bt_tag = e.tags["Block Time"]
+        probe = _Probe(run.engine)
         snaps = [run.snapshot()]
         ran = [False]
-        timers: list[list[Fraction]] = [[]]
-        units_in_program = {m.group(1) for m in re.finditer(r"Base:\s*(s|min|h)\b", case["pcode"])}
         wait_track: dict[str, dict] = {}
         wait_execs: dict[str, int] = {}
-        errored = False
 
         def fail(key, k, detail):
             return Failure(key, dict(brief, tick=k), detail)
@@ -378,22 +629,21 @@ def oracle_case(case: dict, stats: dict | None = None):
                     run.set_tag(act[1], act[2])
                 elif act[0] == "user":
                     run.user(act[1])
-            ran_k = bool(e._runstate_started and not e._runstate_paused and not e._runstate_holding
-                         and not e._runstate_stopping)
-            pre_timers = [dec(v) for v in getattr(st_tag, "_timers", {}).values()] + \
-                         [dec(i.value) for i in getattr(bt_tag, "_stack", [])]
-            ev0 = events.n
+            ran_k = probe.running()
+            pre = probe.full()
+            probe.moments = [probe.light()]
+            ev0 = probe.n_events
             cur = run.tick()
+            probe.moments.append(probe.light())
+            moments = probe.moments
             prev = snaps[-1]
             snaps.append(cur)
             ran.append(ran_k)
-            timers.append(pre_timers)
             if cur["raised"] or cur["tags"].get("Method Status") == "Error" or any(n["failed"] for n in cur["nodes"]):
-                errored = True
-            if errored:
                 break
             pn, _ = _node_maps(prev)
-            stable = (events.n == ev0 and _scope_sig(prev) == _scope_sig(cur)
+            cn, _ = _node_maps(cur)
+            stable = (probe.n_events == ev0 and _scope_sig(prev) == _scope_sig(cur)
                       and prev["tags"].get("Block") == cur["tags"].get("Block")
                       and prev["tags"].get("Base") == cur["tags"].get("Base") and _base_sig(prev) == _base_sig(cur))
             cur["_stable"] = stable
@@ -405,29 +655,44 @@ def oracle_case(case: dict, stats: dict | None = None):
                 # ---------------- thresholds
                 if n["threshold"] is not None and n["cls"] not in WS_CLS and not n["forced"] and not p["forced"]:
                     T = dec(n["threshold"])
+                    unit = str(prev["tags"].get("Base"))
                     if flipped:
                         # (1) never before the clock has reached T
                         cnt("thr_start_judged_stable" if stable else "thr_start_judged_unstable")
-                        if prev["tags"].get("Block") not in (None, ""):
+                        if _in_block(prev):
                             cnt("thr_start_in_block")
-                        cnt("thr_start_base_" + str(prev["tags"].get("Base")))
+                        cnt("thr_start_base_" + unit)
+                        stale_block_accumulator = False
                         if stable:
-                            ok = _clock(prev) >= T * _factor(prev)
-                            seen = f"clock {float(_clock(prev))} base {prev['tags'].get('Base')}"
+                            ok = _reached(prev, T)
+                            c = _clock(prev)
+                            seen = f"clock {None if c is None else float(c)} base {unit}"
                         else:
-                            fs = {_factor(prev), _factor(cur)}
-                            if _base_sig(prev) != _base_sig(cur):
-                                fs |= {FACTOR[u] for u in units_in_program}
-                            cands = pre_timers + [_clock(prev)]
-                            ok = any(c >= T * f for c in cands for f in fs)
-                            seen = f"every scope/block timer {[float(c) for c in cands]} bases {sorted(fs)}"
-                        if not ok and p["completed"] and not p["started"] and not n["forced"]:
+                            cands, why, blk_fresh = _allowed_clocks(n, cn, prev, cur, pre, moments)
+                            if not cands:
+                                # the line ran while its own scope / block was not active (orphaned generator of a
+                                # nested interrupt): judged against every clock of the tick
+                                cnt("thr_start_unstable_without_lexical_restriction")
+                                cands, why, blk_fresh = _allowed_clocks(n, cn, prev, cur, pre, moments, lexical=False)
+                            ok = any(c >= T * f for c, f in cands)
+                            seen = f"the clocks of this tick were {why}"
+                            tags = _clock_tags(unit)
+                            if not ok and blk_fresh and unit in VOL_FACTOR and tags is not None and tags[1] in prev["tags"] \
+                                    and dec(prev["tags"][tags[1]]) >= T * VOL_FACTOR[unit]:
+                                stale_block_accumulator = True
+                        if not ok and p["completed"] and not p["started"]:
                             # signature of the recorded finding: the node had been marked completed (by the command
                             # of a previous Alarm invocation) while it was waiting for its threshold
                             return fail("threshold-skipped-node-marked-completed-by-previous-invocation", k,
                                         f"line {n['line']} ({n['name']}: {n['arg']}) threshold {n['threshold']} was waiting, "
                                         f"got `completed` from the command of the previous invocation and started in tick {k}, "
                                         f"but {seen}")
+                        if not ok and stale_block_accumulator:
+                            return fail("volume-threshold-at-block-start-judged-on-outer-accumulator", k,
+                                        f"line {n['line']} ({n['name']}: {n['arg']}) threshold {n['threshold']} {unit} is the first "
+                                        f"to run in a block that started in tick {k} (block accumulator 0) and started in "
+                                        f"that tick: the block accumulator tag still showed "
+                                        f"{prev['tags'][_clock_tags(unit)[1]]} of the enclosing scope")
                         if not ok:
                             return fail("threshold-instruction-started-before-clock-reached-threshold", k,
                                         f"line {n['line']} ({n['name']}: {n['arg']}) threshold {n['threshold']} started in "
@@ -441,7 +706,7 @@ def oracle_case(case: dict, stats: dict | None = None):
                             if b is not None and _pred_done(before, n["id"]):
                                 cnt("thr_promptness_judged")
                             if b is not None and not b["started"] and not b["completed"] and not b["cancelled"] \
-                                    and _pred_done(before, n["id"]) and _clock(before) >= T * _factor(before):
+                                    and _pred_done(before, n["id"]) and _reached(before, T):
                                 return fail("threshold-instruction-started-later-than-first-eligible-tick", k,
                                             f"line {n['line']} threshold {n['threshold']}: in tick {kp} the predecessor was "
                                             f"complete and the clock {float(_clock(before))} had reached the threshold, "
@@ -450,7 +715,7 @@ def oracle_case(case: dict, stats: dict | None = None):
                             and not p["cancelled"] and p["parent"] is not None \
                             and pn[p["parent"]]["cls"] == "ProgramNode":
                         # (2') forward form, main sequence only (the root loop cannot die)
-                        if _pred_done(prev, n["id"]) and _clock(prev) >= T * _factor(prev):
+                        if _pred_done(prev, n["id"]) and _reached(prev, T):
                             return fail("threshold-instruction-not-started-at-first-eligible-tick", k,
                                         f"line {n['line']} threshold {n['threshold']}: predecessor complete and clock "
                                         f"{float(_clock(prev))} >= threshold before tick {k}, not started in tick {k}")
@@ -472,7 +737,16 @@ def oracle_case(case: dict, stats: dict | None = None):
         run.close()
 
 
+TOL = Fraction(1, 1000000)       # timing error allowed per measurement (float tick times), in seconds
+
+
 def _check_waits(cur, k, ran, wait_track, fail, cnt):
+    """Third clause, ONE origin: the tick `b` in which the Wait began waiting (the first interpreter tick after
+    its `started` flag: `wait_start_time`, the run-log state Started).  The next line must get `started` in a tick
+    `j` with  d - tol <= (j - b) * 0.1  (all ticks count: the Wait reads the engine's tick time, which goes on
+    during Pause / Hold) and  (interpreter ticks in (b, j]) * 0.1 < d + 0.1 + tol  (ticks in which the interpreter
+    does not run cannot start anything).  On the 0.1 s grid that is {d, d + 0.1}, off it exactly ceil(d / 0.1)
+    ticks.  `Wait: d` with d < 0.1 s is skipped by the code ("shorter than a tick"): there 0 ticks are accepted."""
     nodes, kids = _node_maps(cur)
     tenth = Fraction(1, 10)
     for wid, tr in list(wait_track.items()):
@@ -513,33 +787,38 @@ def _check_waits(cur, k, ran, wait_track, fail, cnt):
         if k == i and succ["started"]:
             wait_track.pop(wid, None)     # the successor was not seen un-started in this execution: not judged
             continue
-        b = next((t for t in range(i + 1, k + 1) if ran[t]), None)      # tick of the Wait body
-        running_after_b = 0 if b is None else sum(1 for t in range(b + 1, k + 1) if ran[t])
+        b = next((t for t in range(i + 1, k + 1) if ran[t]), None)      # the tick in which the Wait began waiting
+        if b is None:
+            continue
+        running_after_b = sum(1 for t in range(b + 1, k + 1) if ran[t])
         plain_succ = succ["cls"] not in WS_CLS and succ["threshold"] is None
-        limit = math.floor(d / tenth) + 1
+        skipped = d < tenth                              # "Skipping Wait with duration shorter than a tick"
+        lower = 0 if skipped else math.ceil((d - TOL) / tenth)            # ticks
+        upper = math.ceil((d + tenth + TOL) / tenth) - 1                  # interpreter ticks: N * 0.1 < d + 0.1 + tol
         if succ["started"]:
-            if "j" not in tr:
-                tr["j"] = k
-                cnt("wait_lower_bound_judged")
-                if plain_succ:
-                    cnt("wait_upper_bound_judged")
-                if rerun_scope is not None:
-                    cnt(f"wait_in_{rerun_scope}_execution_{min(tr.get('nth', 1), 3)}_judged")
-                if any(not ran[t] for t in range(i, k + 1)):
-                    cnt("wait_spanning_pause_or_hold")
-                if k - i < math.ceil(d / tenth):
-                    return fail("wait-successor-started-before-duration-elapsed", k,
-                                f"Wait: {w['arg']} (line {w['line']}, execution {tr.get('nth', 1)}) got started in tick {i}, "
-                                f"line {succ['line']} started in tick {k}: {k - i} ticks of 0.1 s < {float(d)} s")
-                if plain_succ and running_after_b > limit:
-                    return fail("wait-successor-started-later-than-one-tick-after-duration", k,
-                                f"Wait: {w['arg']} (line {w['line']}) began waiting in tick {b}, line {succ['line']} started in "
-                                f"tick {k}: {running_after_b} interpreter ticks > {limit} (= floor(d/0.1)+1)")
+            cnt("wait_lower_bound_judged")
+            if plain_succ:
+                cnt("wait_upper_bound_judged")
+            if d % tenth == 0:
+                cnt("wait_on_grid_judged")
+            if rerun_scope is not None:
+                cnt(f"wait_in_{rerun_scope}_execution_{min(tr.get('nth', 1), 3)}_judged")
+            if any(not ran[t] for t in range(i, k + 1)):
+                cnt("wait_spanning_pause_or_hold")
             wait_track.pop(wid, None)
+            if k - b < lower:
+                return fail("wait-successor-started-before-duration-elapsed", k,
+                            f"Wait: {w['arg']} (line {w['line']}, execution {tr.get('nth', 1)}) began waiting in tick {b}, "
+                            f"line {succ['line']} started in tick {k}: {k - b} ticks of 0.1 s < {float(d)} s")
+            if plain_succ and running_after_b > upper:
+                return fail("wait-successor-started-later-than-one-tick-after-duration", k,
+                            f"Wait: {w['arg']} (line {w['line']}) began waiting in tick {b}, line {succ['line']} started in "
+                            f"tick {k}: {running_after_b} interpreter ticks of 0.1 s >= {float(d)} s + one tick")
         else:
             parent = nodes[w["parent"]]
-            if plain_succ and parent["cls"] == "ProgramNode" and running_after_b > limit:
+            if plain_succ and parent["cls"] == "ProgramNode" and running_after_b > upper:
+                wait_track.pop(wid, None)
                 return fail("wait-successor-not-started-one-tick-after-duration", k,
                             f"Wait: {w['arg']} (line {w['line']}) began waiting in tick {b}; after {running_after_b} interpreter "
-                            f"ticks (> {limit}) line {succ['line']} has not started")
+                            f"ticks (> {upper}) line {succ['line']} has not started")
     return None
